@@ -56,6 +56,11 @@ def run(ctx):
                 if tys and tys[0] == "&mut std::vec::Vec<essential_types::solution::Mutation>" and not dm.blocks[bb]["cleanup"]:
                     muts.append(M.callee_of(t).split("::")[-1])
             ctx.ob("R8", "declared-mutations-are-kept:only-push-on-state_mutations", muts == ["push"], dm.loc(0), "mutating calls on a solution's state_mutations: %s" % muts, dm)
+    if not getattr(ctx, "_src", None):
+        # computed mutations reach the overlay only if the list decoder reads every mutation up to the end of its input (C18 R3)
+        from . import C18
+        from .C19 import _OnlyKeys
+        C18.run(_OnlyKeys(ctx, "R3", "R8", r"mutations-reader|decode_mutation"))
     ctx.rule("R7", "per-key overlay: a mutated key yields the mutation's value, any other key one word-vector read from the pre-state at that key; the key advances by next_key (carry from the last word) once per value")
     r7(ctx, prog)
 
@@ -129,6 +134,9 @@ def r2(ctx, prog):
             detail = "read_or_fallback(%s)" % ", ".join(r)
             ok = r == ["self.0", "self.1", "contract_addr", "key", "num_values"]
         ctx.ob("R2", "view-forwards-the-request-unchanged", ok, v.loc(0), detail, v)
+        rows = [(val, at) for _, val, at in M.return_table(prog, v)]
+        ctx.ob("R2", "view-answers-only-through-the-overlay-helper", rows == [("essential_check::solution::read_or_fallback(self.0, self.1, contract_addr, key, num_values)", [])], v.loc(0),
+               "returns %s (no fast path beside the overlay helper)" % [(val[:80], at) for val, at in rows], v)
     h = prog.fn("essential_check::solution::read_or_fallback")
     if ctx.anchor("R2", "fn read_or_fallback", h):
         ctx.saw(h)
